@@ -1,11 +1,13 @@
 SPECIFICATION Spec
 CONSTANTS MaxDepth = 3
-  Families <- FamQuick
+  Families <- FamQuickA
   StoreByCopy = TRUE
   TailKeepsSets = TRUE
   SplitContinues = TRUE
   SkipEmpty = TRUE
   SplitCachesExport = FALSE
   SrcFRepass = TRUE
+  MFRunCopies = TRUE
+  AlterApplied = FALSE
 INVARIANT Emitted
 CHECK_DEADLOCK FALSE
